@@ -215,6 +215,14 @@ def run_fitlinear(part, unit):
         if c3.shape != exp.shape or np.max(np.abs(c3 - exp)) > 1e-7 * max(1.0, np.max(np.abs(exp))):
             part.violation(PID, 'fit-linear-in-data', 'ZernikeFit', f'family={fam},N={N}', dict(set=sname), observed=c3[:6],
                            expected=exp[:6], tol=1e-7)
+        # homogeneity over six decades of amplitude (data in waves, in nanometres, in metres): residuals far above and far below 1
+        for amp in (1e3, 1e-3):
+            f4 = ZernikeFit(x.copy(), y.copy(), amp * z1, fam, N)
+            part.transitions += 1
+            c4 = np.asarray(f4.coeffs, dtype=float)
+            if c4.shape != c1.shape or np.max(np.abs(c4 - amp * c1)) > 1e-5 * amp * max(1.0, np.max(np.abs(c1))):   # iterative solver, finite-difference Jacobian
+                part.violation(PID, 'fit-linear-in-data', 'ZernikeFit', f'family={fam},N={N}', dict(set=sname, amplitude=amp), observed=c4[:6],
+                               expected=(amp * c1)[:6], tol=1e-5)
         # the fit is the least-squares solution: residual orthogonal to every fitted term
         A = design(fam, N, x, y)
         res = z1 - A @ c1
